@@ -49,21 +49,20 @@ def startWrite (b : Buffer) : Buffer :=
     { b' with validUntil := b'.buf.length }
   else b
 
+/-- `copy(b.buf[m:], p)` after growing by `len(p)`. -/
+def append (b : Buffer) (p : List Byte) : Buffer := { b with buf := b.buf ++ p }
+
 /-- `Write` / `WriteString`. -/
-def write (b : Buffer) (p : List Byte) : Buffer :=
-  let b := b.startWrite
-  { b with buf := b.buf ++ p }
+def write (b : Buffer) (p : List Byte) : Buffer := b.startWrite.append p
 
 def writeByte (b : Buffer) (x : Byte) : Buffer :=
   let b := b.startWrite
   if b.mode = .unsafeEsc ∧ x ≥ 0x80 then
     b.write escB
   else
-    { b with buf := b.buf ++ [x] }
+    b.append [x]
 
-def writeRune (b : Buffer) (r : Int) : Buffer :=
-  let b := b.startWrite
-  { b with buf := b.buf ++ encodeRune r }
+def writeRune (b : Buffer) (r : Int) : Buffer := b.startWrite.append (encodeRune r)
 
 def finalize (b : Buffer) : Buffer :=
   let b := if b.mode = .raw then { b with validUntil := b.buf.length }
